@@ -1551,18 +1551,21 @@ Fixpoint readtime_all (l : list ax) : M (list sx) :=
   | a :: r => v <- readtime a ;; vs <- readtime_all r ;; ret (v :: vs)
   end.
 
-(* parse(ctx, file_id, text) followed by eval_progn *)
-Definition run_body (t : text) : M sx :=
+(* parse(ctx, file_id, text): read, read-time definitions, final expansion *)
+Definition parse_body (t : text) : M sx :=
   fun s =>
     match read_ax F (flags s) t with
     | Ok forms =>
         (forms' <- readtime_all forms ;;
-         out <- rec (TExpand (of_list forms' Nil)) ;;
-         eval_progn rec out) s
+         rec (TExpand (of_list forms' Nil))) s
     | Err e => (Err e, s)
     | Panic n => (Panic n, s)
     | Fuel => (Fuel, s)
     end.
+
+(* eval_string / eval_file after the file name is resolved *)
+Definition run_body (t : text) : M sx :=
+  out <- parse_body t ;; eval_progn rec out.
 
 End Top.
 
@@ -1573,6 +1576,8 @@ Fixpoint run (fuel : nat) (t : task) : M sx :=
   end.
 
 Definition eval_string (fuel : nat) (t : text) : M sx := run_body (run fuel) t.
+
+Definition parse_string (fuel : nat) (t : text) : M sx := parse_body (run fuel) t.
 
 Definition eval_file (fuel : nat) (name : text) : M sx :=
   body <- find_file name ;; run_body (run fuel) body.
